@@ -404,6 +404,88 @@ fn same_name_from_two_crates_family(rep: &mut Report) {
     rep.cov_add("traces_validated_against_impl", jobs.len() as u64);
 }
 
+/// Layouts in which the crate of a file is not simply "the directory it was found under": crates nested inside a crate's
+/// directory, annotated files outside any `src`, crates and files reached through symbolic links. The crate is the
+/// directory above the nearest `src` *of the path as walked*; runs at several thread counts must agree with that and
+/// with each other.
+fn layouts_family(rep: &mut Report) {
+    let mut jobs = Vec::new();
+    for layout in ["nested-crate-and-files-outside-src", "crate-directory-reached-through-a-link", "file-linked-from-elsewhere"] {
+        for threads in [1usize, 2, 4, 16] {
+            for rep_i in 0..3 {
+                jobs.push((layout, threads, rep_i));
+            }
+        }
+    }
+    let results = par_map(&jobs, report::threads(), |(layout, threads, _)| {
+        let sc = Scratch::new("c14l");
+        let mut extra: Vec<String> = Vec::new();
+        let mut expected: BTreeMap<&'static str, Vec<&'static str>> = BTreeMap::new();
+        match *layout {
+            "nested-crate-and-files-outside-src" => {
+                for i in 0..6 {
+                    sc.write(&format!("ws/outer/src/m{i}.rs"), format!("#[typeshare]\npub struct Outer{i} {{ pub v: u32 }}\n").as_bytes());
+                }
+                sc.write("ws/outer/crates/inner/src/lib.rs", b"#[typeshare]\npub struct Inner { pub v: u32 }\n");
+                sc.write("ws/outer/crates/inner/src/more.rs", b"#[typeshare]\npub struct InnerMore { pub v: u32 }\n");
+                sc.write("ws/outer/examples/demo.rs", b"#[typeshare]\npub struct ExampleOnly { pub v: u32 }\n");
+                sc.write("ws/outer/tests/it.rs", b"#[typeshare]\npub struct TestOnly { pub v: u32 }\n");
+                expected.insert("outer", vec!["Outer0", "Outer1", "Outer2", "Outer3", "Outer4", "Outer5"]);
+                expected.insert("inner", vec!["Inner", "InnerMore"]);
+            }
+            "crate-directory-reached-through-a-link" => {
+                sc.write("real/gamma_0.3/src/lib.rs", b"#[typeshare]\npub struct Gamma { pub v: u32 }\n");
+                sc.write("ws/app/src/lib.rs", b"use gamma::Gamma;\n#[typeshare]\npub struct App { pub g: Gamma }\n");
+                let _ = std::os::unix::fs::symlink(sc.path("real/gamma_0.3"), sc.path("ws/gamma"));
+                extra.push(s("-L"));
+                expected.insert("gamma", vec!["Gamma"]);
+                expected.insert("app", vec!["App"]);
+            }
+            _ => {
+                sc.write("shared/models.rs", b"#[typeshare]\npub struct Shared { pub v: u32 }\n");
+                sc.write("ws/app/src/lib.rs", b"#[typeshare]\npub struct App { pub s: Shared }\n");
+                let _ = std::os::unix::fs::symlink(sc.path("shared/models.rs"), sc.path("ws/app/src/models.rs"));
+                expected.insert("app", vec!["App", "Shared"]);
+            }
+        }
+        sc.mkdir("out");
+        let mut args = cli::lang_args(Lang::TypeScript);
+        args.extend(extra);
+        args.extend([s("-d"), sc.path("out").to_string_lossy().into_owned(), sc.path("ws").to_string_lossy().into_owned()]);
+        let r = run_cli(&args, &sc.root, &[("TYPESHARE_VERIF_THREADS", threads.to_string())], cli::TIMEOUT);
+        let snap: BTreeMap<String, String> = cli::snapshot(&sc.path("out")).into_iter().map(|(k, v)| (k, String::from_utf8_lossy(&v).into_owned())).collect();
+        (r.class(), r.stderr.chars().take(300).collect::<String>(), snap, expected, args)
+    });
+    let mut judged = 0u64;
+    let mut first_of: BTreeMap<&str, &BTreeMap<String, String>> = BTreeMap::new();
+    for ((layout, threads, _), (class, stderr, snap, expected, argv)) in jobs.iter().zip(results.iter()) {
+        judged += 1;
+        let detail = |what: &str| json!({"layout": layout, "threads": threads, "argv": argv, "exit": class, "stderr": stderr, "output_files": snap, "expected_definitions_per_file": expected, "observation": what});
+        if *class != "ok" {
+            rep.vios.add(Violation { sig: format!("C14|typescript|layouts|run-{class}|layout={layout}"), detail: detail("the run did not succeed") });
+            continue;
+        }
+        let got: BTreeMap<String, Vec<String>> = snap.iter().map(|(f, text)| (f.trim_end_matches(".ts").to_string(), extract::extract(Lang::TypeScript, text).map(|of| of.defs.iter().map(|d| d.name().to_string()).collect()).unwrap_or_default())).collect();
+        let want: BTreeMap<String, Vec<String>> = expected.iter().map(|(k, v)| (k.to_string(), v.iter().map(|x| x.to_string()).collect())).collect();
+        let norm = |m: &BTreeMap<String, Vec<String>>| m.iter().map(|(k, v)| { let mut v = v.clone(); v.sort(); (k.clone(), v) }).collect::<BTreeMap<_, _>>();
+        if norm(&got) != norm(&want) {
+            rep.vios.add(Violation { sig: format!("C14|typescript|layouts|definitions-in-wrong-file-or-missing|layout={layout}"), detail: detail(&format!("definitions per file: {got:?}")) });
+        }
+        match first_of.get(layout) {
+            None => {
+                first_of.insert(layout, snap);
+            }
+            Some(f) if *f != snap => {
+                rep.vios.add(Violation { sig: format!("C14|typescript|layouts|output-differs-between-runs|layout={layout}"), detail: detail("the same tree gave different files in another run (other thread count or repetition)") });
+            }
+            _ => {}
+        }
+    }
+    rep.cov("layouts", json!({"process_runs": jobs.len(), "layouts": ["crate nested in a crate's directory + annotated files under examples/ and tests/ (outside any src: not part of any crate's output)", "crate directory reached through a symbolic link (-L): named after the link", "a file of a crate that is a symbolic link to a file elsewhere: belongs to the crate it was found in"], "thread_counts": [1, 2, 4, 16], "repetitions": 3, "language": "typescript"}));
+    rep.cov_add("evaluations", judged);
+    rep.cov_add("traces_validated_against_impl", jobs.len() as u64);
+}
+
 /// Topologies: k crates `k1..kk`, crate i holds `T<i>` (and a second file with `Extra<i>` at depth), and for every
 /// pair i < j an edge "T<i> refers to T<j>" is present or absent — every subset of edges, i.e. every reference DAG
 /// compatible with the crate order (chains, fans, diamonds, isolated crates). Generic oracle: file set, each
@@ -712,6 +794,7 @@ pub fn run(args: &[String]) -> i32 {
     rep.cov("bounds", json!({"reference_forms": FORMS, "target_renamed": [false, true], "target_kinds": TARGET_KINDS, "target_type_mapped": [false, true], "same_named_type_in_third_crate": ["no", "yes", "yes, serde-renamed (plus a fourth crate with another renamed homonym)"], "positions": POSITIONS, "file_depth": ["src/lib.rs", "src/a/b.rs (and dashed crate name)"], "languages": 6, "crates": "2-3 (reference forms), 1-5 (topologies)"}));
     topology_family(&mut rep);
     same_name_from_two_crates_family(&mut rep);
+    layouts_family(&mut rep);
     rep.cov("exhaustive", json!(true));
     rep.cov("rule", json!("full product of reference form × serde(rename) on the target × type mapping of the target × same-named type in a third crate × reference position × file depth/dashed crate name × language, each workspace generated with -d and with -o by the real binary: file set and names per crate, each definition in its crate's file, definitions equal to single-file mode, and (TypeScript, Kotlin) every cross-file reference imported from the defining module and no import of a name its module does not define. non-trivial = the reference crosses a crate boundary."));
     rep.assume("over-import by `use c::*` (names defined in c but unused) is allowed by the property");
